@@ -135,7 +135,10 @@ def execute(sc, ctx):
         return b"".join(out)
 
     # ---- route 1: HashStreamFile consumed directly, all algorithms --------
-    for name in ("md5", "sha256", "blake3", "MD5", "SHA256"):
+    # every name hashlib offers is supported (hashlib.new fallback): two of those, chosen per scenario, ride along
+    extra_names = sorted(n for n in hashlib.algorithms_available if n.lower() == n and not n.startswith("shake"))
+    extra_names = crng.sample(extra_names, min(2, len(extra_names))) + (["md5-sha1"] if "md5-sha1" in hashlib.algorithms_available else [])
+    for name in ["md5", "sha256", "blake3", "MD5", "SHA256", *extra_names]:
         src = SimReader(data, srng)
         hs = HashStreamFile(src, hash_name=name)
         got = consume(hs, [1, 3, 511, 512, 513, 4096, 2**20, -1])
@@ -181,6 +184,21 @@ def execute(sc, ctx):
             if hs.hash_value != model.ref_digest("md5-dos2unix", d):
                 ctx.violate("dos2unix-digest-wrong", variant + (":binary-tail" if b"\x00" in d[512:] and b"\x00" not in d[:512] else ""),
                             f"len={len(d)}")
+        # the legacy stream over a SHORT-reading source: its digest is only claimed for one full read,
+        # but it must still hand on exactly the bytes it consumed
+        src = SimReader(data, srng)
+        hs = get_hash_stream(src, name="md5-dos2unix")
+        out = []
+        while True:
+            b = hs.read(crng.choice([512, 513, 4096, 2**20]))
+            if not b:
+                break
+            out.append(b)
+        streams += 1
+        if src.reads >= 2 and src.short_reads:
+            nontrivial += 1
+        if b"".join(out) != data:
+            ctx.violate("stream-bytes-altered", "dos2unix:short-reads", f"len {len(b''.join(out))} vs {len(data)} reads={src.reads}")
         lf = data.replace(b"\r\n", b"\n")
         crlf = lf.replace(b"\n", b"\r\n")
         if len(crlf) <= 2**20 and model.is_text(lf[:512]) and model.is_text(crlf[:512]) and lf != crlf:
